@@ -201,6 +201,16 @@ def run(cx):
     helpers.check(cx, 'C09.H', ['Name::zone_of', 'Name::base_name', 'RecordTypeSet::contains', 'NSEC3::type_set'])
 
     # ---------------------------------------------------------------- N1 argument names agree with the parameters they are bound to (engine/argnames.py)
+    # ---------------------------------------------------------------- S3 server side: every empty non-terminal gets an NSEC3 record
+    # (RFC 5155 7.1: "each empty non-terminal MUST have a corresponding NSEC3 RR"; the converse clause of C09 - the server's own
+    # proof is accepted - fails for a name whose NSEC3 is missing from the ring).  nsec3_zone adds, for every owner name, each
+    # ancestor strictly between the name and the origin: the walk is bounded by comparing the RUNNING ancestor with the origin, not
+    # by a label count taken from the owner name (Name::num_labels does not count a leading `*`)
+    nz = cx.fn('C09.S3', 'hickory_server::store::in_memory::inner::InnerInMemory::nsec3_zone')
+    if nz:
+        ent = cx.calls(nz, r'Entry<.*>::or_insert_with$|Entry::or_insert_with$')
+        ANC = r'phi\(LowerName::base_name\(.*\)\|LowerName::base_name\(rec\(_\d+\)\)\)'
+        cx.guard('C09.S3', ent, {'ancestor-walk-runs-until-the-origin': rf'^lt\(LowerName::num_labels\(arg2\),LowerName::num_labels\({ANC}\)\)$'}, expect=1, fn=nz)
     argnames.check(cx, 'C09.N1', r'hickory_net::dnssec', floor=80)
     argnames.check_fields(cx, 'C09.N1', r'hickory_net::dnssec', floor=45)
 
